@@ -13,6 +13,7 @@ From SV Require Import Model.Validate.
 From SV Require Import Model.PtSolution.
 From SV Require Import Model.Kang.
 From SV Require Import Model.Visibility.
+From SV Require Import Model.Directivity.
 Require Extraction.
 From Coq Require Import ExtrOcamlBasic.
 Extraction Language OCaml.
@@ -25,4 +26,5 @@ Extraction "model.ml"
   angle_at angle_sum excess poly_area pt_solution s2p_energy s2p_dist p2r_factor kang_ffs
   kang_run kang_resp kN kdelay0 ke0 kinit_with korders_from kpdist kdelay kff_offset
   project_to_plane rotation_matrix rotation_to_z mvec point_in_polygon basic_visibility
-  visible_all check_point2patch check_patch2patch.
+  visible_all check_point2patch check_patch2patch unit_of metrics_w frame_dir_n frame_dir lookup
+  nearest_freq dir_index freq_index dirfac source_dirfac recv_dirfac.
